@@ -414,6 +414,73 @@ def r1b_truth_tables(rule, root=None):
                 rule.ok("Context::%s meets its truth table on %d operand orderings (%s)" % (name, cases, label))
 
 
+def _canonical_order(fn, a_, b_):
+    """op_binary_commutative hands (smaller, larger) to op_binary, however the two are picked: the two
+    arguments are evaluated under each ordering of the (integer) node indices a < b, a == b, a > b"""
+    from .. import effects as E
+
+    calls = [c for c in A.find(fn["body"], "MethodCall") if c["method"] == "op_binary" and A.ident(A.strip(c["recv"])) == "self" and len(c["args"]) == 3]
+    if len(calls) != 1:
+        return False
+    env = E.env_at(fn["body"], calls[0])
+
+    class No(Exception):
+        pass
+
+    def ev(e, order, env):
+        e = A.unblock(e)
+        k = e.get("k")
+        if k == "Path":
+            n = A.ident(e)
+            if n in (a_, b_):
+                return a_ if order == "eq" else n
+            if n in env:
+                return ev(env[n][0], order, {k2: v for k2, v in env.items() if k2 != n})
+            raise No()
+        if k in ("Paren", "Ref"):
+            return ev(e["e"], order, env)
+        if k == "MethodCall" and e["method"] in ("min", "max") and len(e["args"]) == 1:
+            x, y = ev(e["recv"], order, env), ev(e["args"][0], order, env)
+            return pick(e["method"], x, y, order)
+        if k == "Call" and (A.path_segs(e["func"]) or [""])[-1] in ("min", "max") and len(e["args"]) == 2:
+            x, y = ev(e["args"][0], order, env), ev(e["args"][1], order, env)
+            return pick((A.path_segs(e["func"]))[-1], x, y, order)
+        if k == "If" and e.get("else") is not None:
+            c = A.strip(e["cond"])
+            if c.get("k") != "Binary" or c["op"] not in ("<", "<=", ">", ">=", "==", "!="):
+                raise No()
+            x, y = ev(c["left"], order, env), ev(c["right"], order, env)
+            if x == y:
+                t = c["op"] in ("<=", ">=", "==")
+            else:
+                lt = (x == a_) == (order == "lt")  # x < y
+                t = {"<": lt, "<=": lt, ">": not lt, ">=": not lt, "==": False, "!=": True}[c["op"]]
+            return ev(e["then"] if t else e["else"], order, env)
+        if k == "Tuple":
+            return tuple(ev(x, order, env) for x in e["elems"])
+        if k == "Field" and str(e["member"]).isdigit():
+            v = ev(e["e"], order, env)
+            if isinstance(v, tuple) and int(e["member"]) < len(v):
+                return v[int(e["member"])]
+        raise No()
+
+    def pick(which, x, y, order):
+        if x == y:
+            return x
+        small = a_ if order == "lt" else b_
+        large = b_ if order == "lt" else a_
+        return small if which == "min" else large
+
+    try:
+        for order, want in (("lt", (a_, b_)), ("gt", (b_, a_)), ("eq", (a_, a_))):
+            got = (ev(calls[0]["args"][0], order, env), ev(calls[0]["args"][1], order, env))
+            if got != want:
+                return False
+    except (No, KeyError, TypeError):
+        return False
+    return A.ident(A.strip(calls[0]["args"][2])) == "op"
+
+
 def r2_namesakes(rule, root=None):
     unary, binary = O.ctx_opcodes(root)
     for u in unary:
@@ -491,7 +558,7 @@ def r2_namesakes(rule, root=None):
     tl = A.unblock(A.inline_lets_deep(fn["body"]))
     params = [A.binding_name(i_["pat"]) for i_ in fn["sig"]["inputs"] if isinstance(i_, dict) and "pat" in i_]
     a_, b_ = params[0], params[1]
-    if str(A.ftxt(tl)) in ("self.op_binary(%s.min(%s),%s.max(%s),op)" % (a_, b_, a_, b_), "self.op_binary(%s.min(%s),%s.max(%s),op)" % (b_, a_, b_, a_)):
+    if str(A.ftxt(tl)) in ("self.op_binary(%s.min(%s),%s.max(%s),op)" % (a_, b_, a_, b_), "self.op_binary(%s.min(%s),%s.max(%s),op)" % (b_, a_, b_, a_)) or _canonical_order(fn, a_, b_):
         rule.ok("op_binary_commutative orders operands canonically (min, max)")
     else:
         rule.bad("op_binary_commutative", "op_binary_commutative must be op_binary(a.min(b), a.max(b), op)", A.where(fn))
@@ -814,16 +881,80 @@ def r6_tree_eq_hash_drop(rule, root=None):
         rule.ok("Drop dismantles children iteratively", file=TREE, line=dr["ln"])
     f1 = A.find_fn(TREE, "eligible_for_fast_drop", self_ty="TreeOp", root=root)
     t1 = A.ftxt(f1["body"])
-    if t1 == "{self.iter_children().all(|c|c.does_not_recurse())}":
+    if t1 == "{self.iter_children().all(|c|c.does_not_recurse())}" or _all_children(f1) == ("self.iter_children()", "does_not_recurse"):
         rule.ok("the recursive (stack) drop is taken only when every child is a leaf")
     else:
         rule.bad("drop|fast", "eligible_for_fast_drop is `%s`; the stack-recursive drop is only safe when every child is a leaf" % t1, A.where(f1))
     f2 = A.find_fn(TREE, "does_not_recurse", self_ty="TreeOp", root=root)
     t2 = A.ftxt(f2["body"])
-    if t2 in ("{matches!(self,TreeOp::Const(..) | TreeOp::Input(..))}", "{matches!(self,TreeOp::Const(..)|TreeOp::Input(..))}"):
+    if t2 in ("{matches!(self,TreeOp::Const(..) | TreeOp::Input(..))}", "{matches!(self,TreeOp::Const(..)|TreeOp::Input(..))}") or _true_variants(f2, root) == {"Const", "Input"}:
         rule.ok("leaves are exactly Const and Input")
     else:
         rule.bad("drop|leaf", "does_not_recurse is `%s`" % t2, A.where(f2))
+
+
+def _all_children(fn):
+    """`it.all(|c| c.p())` or `!it.any(|c| !c.p())` as the whole body -> (iterator text, p)"""
+    e = A.unblock(fn["body"])
+    neg = False
+    while e.get("k") == "Unary" and e["op"] == "!":
+        neg = not neg
+        e = A.unblock(e["e"])
+    if e.get("k") != "MethodCall" or e["method"] not in ("all", "any") or len(e["args"]) != 1 or e["args"][0].get("k") != "Closure":
+        return None
+    cl = e["args"][0]
+    if len(cl.get("inputs", [])) != 1:
+        return None
+    c = A.binding_name(cl["inputs"][0])
+    p = A.unblock(cl["body"])
+    pneg = False
+    while p.get("k") == "Unary" and p["op"] == "!":
+        pneg = not pneg
+        p = A.unblock(p["e"])
+    if not (p.get("k") == "MethodCall" and not p["args"] and A.ident(A.strip(p["recv"])) == c):
+        return None
+    # all(P) <=> !any(!P)
+    if (e["method"] == "all" and not neg and not pneg) or (e["method"] == "any" and neg and pneg):
+        return (str(A.ftxt(A.strip(e["recv"]))), p["method"])
+    return None
+
+
+def _true_variants(fn, root=None):
+    """the TreeOp variants for which a `&self -> bool` classifier is true: `matches!(self, A | B)` or a
+    `match self` with literal arms (a wildcard arm stands for the variants not listed)"""
+    import re as _re
+
+    e = A.unblock(fn["body"])
+    allv = set(O.enum_variants(TREE, "TreeOp", root))
+    if e.get("k") == "Macro" and e.get("name") == "matches":
+        t = A.unparse(e).replace(" ", "")
+        if not t.startswith("matches!(self,") or "if" in _re.findall(r"\bif\b", t):
+            return None
+        return set(_re.findall(r"TreeOp::(\w+)", t))
+    if e.get("k") == "Match" and A.ident(A.strip(e["e"])) in ("self",) or (e.get("k") == "Match" and str(A.ftxt(A.strip(e["e"]))) == "*self"):
+        true, seen = set(), set()
+        for arm in e["arms"]:
+            if arm.get("guard") is not None:
+                return None
+            b = A.unblock(arm["body"])
+            if not (b.get("k") == "Lit" and b.get("ty") == "bool"):
+                return None
+            val = b["v"] == "true"
+            pats = arm["pat"]["cases"] if arm["pat"].get("k") == "POr" else [arm["pat"]]
+            for p in pats:
+                if p.get("k") == "PWild":
+                    names = allv - seen
+                else:
+                    segs, _subs = A.pat_variant(p)
+                    if not segs or segs[-1] not in allv:
+                        return None
+                    names = {segs[-1]}
+                names -= seen
+                seen |= names
+                if val:
+                    true |= names
+        return true if seen == allv else None
+    return None
 
 
 def r7_no_recursion(rule, root=None):
